@@ -45,11 +45,19 @@ def _probe():
             checks_keys = False
         except DuplicateNameError:
             checks_keys = True
-    return full_shape, exempt, checks_attrs, checks_keys
+        # 5. does add_attribute refuse a name that is already a key of the instance dict (a variable's storage)?
+        c = VectorContainer(range(2))
+        c.add_variable('A', 0.0)
+        try:
+            c.add_attribute('_A', 1)
+            attr_checks_keys = False
+        except DuplicateNameError:
+            attr_checks_keys = True
+    return full_shape, exempt, checks_attrs, checks_keys, attr_checks_keys
 
 
 def tables():
-    full_shape, exempt, checks_attrs, checks_keys = _probe()
+    full_shape, exempt, checks_attrs, checks_keys, attr_checks_keys = _probe()
     b = lambda x: 'true' if x else 'false'
     return [
         '/-- `VectorContainer.__setattr__` rejects a sequence whose shape is not exactly `(len(span),)` (probed). -/',
@@ -60,4 +68,6 @@ def tables():
         f'def containerAddVariableChecksAttrs : Bool := {b(checks_attrs)}',
         "/-- `add_variable(name)` raises DuplicateNameError when `'_' + name` is already a key of `__dict__` (probed). -/",
         f'def containerAddVariableChecksKeys : Bool := {b(checks_keys)}',
+        '/-- `add_attribute(name)` raises DuplicateNameError when `name` is already a key of `__dict__` (probed). -/',
+        f'def containerAddAttributeChecksKeys : Bool := {b(attr_checks_keys)}',
     ]
